@@ -48,6 +48,22 @@ CLAIMED = {
              'end-of-data is pushed once, and encoder/compressor errors travel as futures. NOT decided: bytes on disk for every fault offset (needs fault injection), '
              'partial-write semantics inside zlib/bz2.',
         design='5/C08', note='trusts the frozen error-convention table (DESIGN appendix B), clang CFG, driver instantiation set'),
+    'C09': dict(
+        technique='static analysis: error-discipline path walk (ERRDISC) on the read side + status-assumption walks over each Decompressor::read (library status -> reachable returns/assignments)',
+        text='Decides per decompressor: every zlib/bz2/OS error on the read path reaches a throw; the returned chunk length is the library byte count; under a "more to come" '
+             'status read() cannot return an empty chunk (= end marker); at stream end the next stream is started and end of data is declared only after the library\'s '
+             'unconsumed input was tested to be empty (feof alone does not count); unused bytes are copied before the handle is closed and handed to the re-open; close() closes '
+             'the library handle and resets it before it can throw; the read thread closes inside its try and forwards every chunk. Eight instances are genuine defects of the '
+             'unchanged tree (known findings F5a/F5b/F11). NOT decided: byte equality with a reference decompressor, read-ahead alignments, gzread\'s internal member handling.',
+        design='5/C09', note='trusts the frozen zlib/bz2 convention table, clang CFG'),
+    'C17': dict(
+        technique='static analysis: CFG pairing/typestate rules (count==emit, start/finish, WKB back-patching), ORDERTYPE on degenerate-input thresholds, sibling agreement of the three back ends',
+        text='Decides for the factory and the WKB/WKT/GeoJSON back ends: on every path the number of emitted locations equals the returned counter; start/finish typestate of '
+             'linestrings, polygons and multipolygons incl. ring grouping; WKB size placeholders are back-patched with the counter of the same start; degenerate thresholds throw '
+             'before finish; both projections read coordinates through the checking accessors; reverse direction uses reverse iterators of the same list; number formatting '
+             'buffer/trim structure. Five instances are genuine defects of the unchanged tree (known findings F12-F14). NOT decided: numeric formatting values, agreement of '
+             'independent decoders on the encodings.',
+        design='5/C17', note='trusts clang template instantiation of drivers/geom.cpp (3 back ends x 2 projections), CFG'),
     'C14': dict(
         technique='static analysis: exact character-set (interval) evaluation of the escapers\' predicates and bit-slice symbolic evaluation of hex/UTF-8 emitters, compared with the parsers\' own delimiter/decoder tables',
         text='Decides exactly (over all 0x110000 code points, by interval arithmetic on the condition ASTs, never by running code): the OPL pass-through set is disjoint from every '
